@@ -5,6 +5,9 @@ PROP = {
     "lean_modules": ["SwimVerif.Model.Conduit", "SwimVerif.Model.ConduitMon", "SwimVerif.Proofs.Conduit",
                      "SwimVerif.Generated.CoopConsts"],
     "engines": [
+        # real threads: closing either half while the other side is registering its waker (below the model's atomic steps)
+        {"name": "close-race", "crate": "core", "bin": "sv-c12s", "machine": "c12s", "modes": ["monitor"],
+         "cases": {"quick": 24, "thorough": 600}, "min_shard": 3, "shards": 4, "nontrivial_min_ops": 1},
         {"name": "conduit", "crate": "core", "bin": "sv-c12", "machine": "c12",
          "cases": {"quick": 4000, "thorough": 400000}, "min_shard": 1000},
     ],
